@@ -338,7 +338,7 @@ func checkC15(p *Prog, r *Report) {
 			for _, i := range b.Instrs {
 				switch x := i.(type) {
 				case *ssa.Panic:
-					if "yield-invalid" != b.Comment && !strings.HasPrefix(b.Comment, "rangefunc.") {
+					if "yield-invalid" != b.Comment && !strings.HasPrefix(b.Comment, "rangefunc.") && !ssa.IsUnreachableMarker(i) {
 						fail("panic", i, "explicit panic")
 					}
 				case *ssa.Go, *ssa.Select, *ssa.Send, *ssa.Defer:
